@@ -14,6 +14,8 @@ def dispatch (j : Json) : R Json := do
   | "c02" => Driver.Fields.handleC02 j
   | "c03" => Driver.Fields.handleC03 j
   | "c01" => Driver.Lines.handleC01 j
+  | "c09" => Driver.Lines.handleC09 j
+  | "c11" => Driver.Lines.handleC11 j
   | _ => throw s!"unknown op {op}"
 
 partial def loop (inp out : IO.FS.Stream) : IO Unit := do
